@@ -43,6 +43,8 @@ def show(k):
         return '(' + ', '.join(show(x) for x in k[1]) + ')'
     if k[0] == 'UNK':
         return f'unknown({k[1]})'
+    if k[0] == 'FUNC':
+        return f'function {k[1]}'
     if k[0] == 'MIX':
         return ' | '.join(show(x) for x in k[1])
     return {'ND': 'ndarray', 'SCALAR': 'scalar', 'OBJ': 'object'}[k[0]]
@@ -122,6 +124,9 @@ class QDomain(Domain):
         if isinstance(e, ast.Name):
             if e.id in st:
                 return st[e.id]
+            r_ = eng.repo.resolve_name(self.fi.module, e.id)
+            if r_ and r_[0] == 'func':
+                return ('FUNC', r_[1].qual)           # a function of the package handed on as a value
             return UNK(f'name {e.id}')
         if isinstance(e, (ast.List, ast.Tuple)):
             k = None
@@ -229,6 +234,16 @@ class QDomain(Domain):
                 return LIST(TUPLE([SCALAR, elem(args[0])]))
             if n == 'zip':
                 return LIST(TUPLE([elem(a) for a in args]))
+            if n in st and st[n][0] == 'FUNC':
+                # a call through a parameter / local that holds a function of the package
+                kw = {k.arg: self.ev(k.value, st) for k in e.keywords if k.arg}
+                return self.engine.summary(self.engine.repo.funcs[st[n][1]], args, kw)
+            if n in st and st[n][0] == 'MIX' and all(x[0] == 'FUNC' for x in st[n][1]):
+                kw = {k.arg: self.ev(k.value, st) for k in e.keywords if k.arg}
+                out = None
+                for x in st[n][1]:
+                    out = join(out, self.engine.summary(self.engine.repo.funcs[x[1]], args, kw))
+                return out
             r = self.engine.repo.resolve_name(self.fi.module, n)
             if r and r[0] == 'func':
                 kw = {k.arg: self.ev(k.value, st) for k in e.keywords if k.arg}
